@@ -640,6 +640,100 @@ v("C04", "http-server-ctx-background", "httpgrpc/server.go",
 
 		req, err := ioutil.ReadAll(r.Body)""", "R3", "ctx", "HTTP unary handler detached from the request context")
 
+# ------------------------------------------------------------------ C05
+v("C05", "close-outside-flag", "inprocgrpc/in_process.go",
+  """	if !s.sendClosed {
+		close(s.requests)
+		s.sendClosed = true
+	}
+	return nil""", """	close(s.requests)
+	s.sendClosed = true
+	return nil""", "R2", "close(.requests)", "second CloseSend panics (close of closed channel)")
+v("C05", "trysettrailer-no-lock", "inprocgrpc/in_process.go",
+  """func (s *inProcessServerStream) TrySetTrailer(md metadata.MD) error {
+	s.mu.Lock()
+	defer s.mu.Unlock()
+	if s.state""", """func (s *inProcessServerStream) TrySetTrailer(md metadata.MD) error {
+	if s.state""", "R1", "TrySetTrailer", "trailers mutated without the lock")
+v("C05", "rch-closed-before-done", "httpgrpc/client.go",
+  """		cs.done = true
+		readPipe.CloseWithError(rErr)
+		close(cs.rCh)""", """		readPipe.CloseWithError(rErr)
+		close(cs.rCh)
+		cs.done = true""", "R5", "RecvMsg:panic", "done set after close: the sanity panic becomes reachable")
+v("C05", "sendmsg-takes-respmu", "inprocgrpc/in_process.go",
+  """func (s *inProcessClientStream) SendMsg(m interface{}) error {
+	s.reqMu.Lock()
+	defer s.reqMu.Unlock()
+""", """func (s *inProcessClientStream) SendMsg(m interface{}) error {
+	s.reqMu.Lock()
+	defer s.reqMu.Unlock()
+	s.respMu.Lock()
+	defer s.respMu.Unlock()
+""", "R4", "order:", "send takes the receive lock too: deadlock when the receiver blocks")
+v("C05", "drop-defer-cancel", "inprocgrpc/in_process.go",
+  """	sts := internal.UnaryServerTransportStream{Name: method}
+
+	defer cancel()
+	ch := make(chan frame, 1)""", """	sts := internal.UnaryServerTransportStream{Name: method}
+
+	_ = cancel
+	ch := make(chan frame, 1)""", "R6", "cancel", "server goroutine never released if the handler ignores its frames' fate")
+v("C05", "send-after-close-server", "inprocgrpc/in_process.go",
+  """	if s.ctx.Err() != nil || s.state == streamStateClosed {
+		return io.EOF
+	}
+	if s.state == streamStateHeaders {""", """	if s.ctx.Err() != nil {
+		return io.EOF
+	}
+	if s.state == streamStateHeaders {""", "R3", "send(inProcessServerStream.responses)", "handler goroutine leaking a SendMsg after return panics on the closed channel")
+v("C05", "client-send-no-closed-check", "inprocgrpc/in_process.go",
+  """	if s.sendClosed {
+		return fmt.Errorf("send closed")
+	}
+	if isNil(m) {""", """	if isNil(m) {""", "R3", "send(inProcessClientStream.requests)", "SendMsg after CloseSend panics")
+v("C05", "early-return-keeps-lock", "httpgrpc/server.go",
+  """func (s *serverStream) SetTrailer(md metadata.MD) {
+	s.wmu.Lock()
+	defer s.wmu.Unlock()
+
+	s.tr = append(s.tr, md)""", """func (s *serverStream) SetTrailer(md metadata.MD) {
+	s.wmu.Lock()
+	if len(md) == 0 {
+		return
+	}
+	defer s.wmu.Unlock()
+
+	s.tr = append(s.tr, md)""", "R4", "released", "empty trailer set leaves wmu locked forever")
+v("C05", "header-reads-without-lock", "httpgrpc/client.go",
+  """	cs.rMu.RLock()
+	defer cs.rMu.RUnlock()
+	if cs.done {
+		return metadataFromProto(cs.tr.Metadata)
+	}
+	return nil""", """	if cs.done {
+		return metadataFromProto(cs.tr.Metadata)
+	}
+	return nil""", "R1", "Trailer", "trailer read races with the response reader")
+v("C05", "new-panic", "inprocgrpc/in_process.go",
+  """			default:
+				// TODO: panic?
+				return status.Error(codes.Internal, "server sent empty frame")""", """			default:
+				panic("server sent empty frame")""", "R5", "panic", "library panic on an unexpected frame")
+v("C05", "rlock-for-write", "httpgrpc/client.go",
+  """					cs.rMu.Lock()
+					defer cs.rMu.Unlock()
+					if cs.rErr == nil {""", """					cs.rMu.RLock()
+					defer cs.rMu.RUnlock()
+					if cs.rErr == nil {""", "R1", "rErr:w", "terminal error written under a read lock")
+v("C05", "waitgroup-in-goroutine", "httpgrpc/client.go",
+  """	go func() {
+		defer close(respCh)
+		b, err = ioutil.ReadAll(reply.Body)""", """	go func() {
+		defer close(respCh)
+		time.Sleep(time.Millisecond)
+		b, err = ioutil.ReadAll(reply.Body)""", "R6", "go#", "unbounded wait inside a library goroutine")
+
 
 def main():
     if os.path.isdir(OUT):
